@@ -34,7 +34,7 @@ Theorem C07_sp_metadata_registers :
       ep_location e = sp_acs sp /\ ep_binding e = post_binding /\
       In d (descriptors (sp_metadata sp cert)) /\
       (sp_key sp = None \/ sp_key_rsa sp = false -> enc_decision cp (kds d) = Plain) /\
-      (forall k, sp_key sp = Some k -> sp_key_rsa sp = true -> cert <> "" -> cp cert = CertRsaKey k ->
+      (forall k, sp_key sp = Some k -> sp_key_rsa sp = true -> cert <> "" -> cp (strip_ws cert) = CertRsaKey k ->
                  enc_decision cp (kds d) = EncryptTo k).
 Proof. exact sp_metadata_registers. Qed.
 Print Assumptions C07_sp_metadata_registers.
